@@ -96,3 +96,17 @@ Theorem h264_nal_type_source_agrees : forall b rest,
 Proof. intros. split; reflexivity. Qed.
 Print Assumptions language_packing_source_agrees.
 Print Assumptions h264_nal_type_source_agrees.
+
+(** H.265 NAL type and the fragment-duration conversion *)
+From Muxide Require Import Model.Frag.
+
+Theorem hevc_nal_type_source_agrees : forall b rest, hevc_nal_type (b :: rest) = hevc_nal_type_src b.
+Proof. intros. reflexivity. Qed.
+
+Theorem ticks_to_ms_source_agrees : forall m ticks,
+  ticks_to_ms m ticks =
+  (let ts := fc_timescale (fm_config m) in
+   if ts =? 0 then 0 else ticks_to_ms_tail_src (ticks_to_ms_ms_src ticks ts)).
+Proof. intros. reflexivity. Qed.
+Print Assumptions hevc_nal_type_source_agrees.
+Print Assumptions ticks_to_ms_source_agrees.
